@@ -320,6 +320,14 @@ fn corpus(out: &mut Out) {
             (t0 + 1, Ev::Donate { denom: 0, amount: 77 }),
         ]),
     ];
+    // more matured unbonding records than one page (MAX_PAGE_LIMIT): every record must still be paid, page by page
+    let mut hs = hs;
+    let mut many: Vec<(u64, Ev)> = vec![(t0, Ev::Bond { who: 2, native: true, denom: 0, amount: 10_000, funds: vec![(0, 10_000)] })];
+    for i in 0..33u64 { many.push((t0 + 1 + i, Ev::Unbond { who: 2, native: true, denom: 0, amount: 10 + i as u128 })); }
+    many.push((t0 + 2_000, Ev::Withdraw { who: 2, denom: 0 }));
+    many.push((t0 + 2_001, Ev::Withdraw { who: 2, denom: 0 }));
+    many.push((t0 + 2_002, Ev::Withdraw { who: 2, denom: 0 }));
+    hs.push((1_000, DEC_ONE, many));
     for (period, growth, evs) in hs {
         let mut x = Exec::new(period, growth);
         for (t, e) in &evs { x.exec(out, *t, e); }
